@@ -18,7 +18,7 @@ RULES = {
     "R-DC": K.rule_DC, "R-CC": K.rule_CC, "R-CL": K.rule_CL, "R-LB": K.rule_LB,
     "R-MX": K.rule_MX, "R-TK": K.rule_TK,
     "R-MS": O.rule_MS, "R-FV": O.rule_FV, "R-AB": O.rule_AB, "R-MP": O.rule_MP,
-    "R-KN": O.rule_KN, "R-PU": O.rule_PU, "R-DK": O.rule_DK, "R-PO": O.rule_PO,
+    "R-KN": O.rule_KN, "R-PU": O.rule_PU, "R-DK": O.rule_DK, "R-PO": O.rule_PO, "R-NK": O.rule_NK,
     "R-HO": P.rule_HO, "R-HF": P.rule_HF, "R-PI": P.rule_PI,
     "R-RE": R.rule_RE, "R-NR": R.rule_NR, "R-DF": R.rule_DF, "R-HI": R.rule_HI,
     "R-EX": R.rule_EX, "R-LS": R.rule_LS, "R-CW": R.rule_CW, "R-TI": R.rule_TI,
@@ -44,7 +44,7 @@ def _p(rules, explanation, undecided, filters=None, floors=None, extra_assumptio
 
 
 PROPS = {
-    "C01": _p(["R-KC", "R-FP", "R-CP", "R-MC", "R-DC", "R-OA", "R-RK", "R-OS", "R-PO", "R-MX"],
+    "C01": _p(["R-KC", "R-FP", "R-CP", "R-MC", "R-DC", "R-OA", "R-RK", "R-OS", "R-PO", "R-MX", "R-OP"],
               "Decides the key-set mechanism behind cache transparency, not values: every child that any evaluate() path of any of the "
               "node classes consults is keyed on the same path of keys() (through constructed wrapper terms); the fingerprint reads "
               "nothing but sorted keyed pairs; Cached uses one (evaluatable, options, cache) triple for exists/get/set/keys and stores "
@@ -53,7 +53,7 @@ PROPS = {
               "whose templates resolve() follows are inspected by Option.keys; no evaluate returns a one-shot iterator.",
               "whether stored values equal uncached evaluation for concrete graphs; prefix relations between run-time key strings "
               "(a whole-section key partly supplied by a pre-set dictionary, finding F13); history effects",
-              floors={"R-KC": 30, "R-OA": 80}),
+              floors={"R-KC": 30, "R-OA": 80}, filters={"R-OP": [":iterates"]}),
     "C02": _p(["R-FP", "R-PO", "R-OA", "R-DC", "R-EO", "R-CP"],
               "Decides the structural conditions for effective memoization: the fingerprint depends on keys(options) only (extra or "
               "re-ordered top-level keys cannot split entries); WithOptions.keys removes keys fixed by the pre-set dictionary; "
@@ -67,7 +67,7 @@ PROPS = {
               "the fingerprint is a deterministic function of the sorted keyed pairs (no hash/id/set-order/environment dependence); "
               "nothing consulted is unkeyed; dotted keys are only looked up through dotted accessors.",
               "restrict-and-re-evaluate equality on concrete dictionaries; F13"),
-    "C04": _p(["R-MS", "R-FV", "R-AB", "R-MP", "R-KN", "R-PU", "R-CC", "R-KC"],
+    "C04": _p(["R-MS", "R-FV", "R-AB", "R-MP", "R-KN", "R-PU", "R-CC", "R-KC", "R-NK"],
               "Decides: the MISSING sentinel and looked-up values never flow into a truthiness test (presence is decided by "
               "KeyError/dotted_key_exists only); the default is consulted only on the key-absent branch behind `is not MISSING`; "
               "every returning path of Option.evaluate passes the returned value through the type request and the domain check, and "
@@ -108,18 +108,18 @@ PROPS = {
               "inspect every container kind whose embedded references resolve() follows; KeyError translations are chained.",
               "the substituted text",
               filters={"R-KC": ["Template", "Option"], "R-CH": ["Template", "Option"]}),
-    "C10": _p(["R-VA", "R-KC", "R-OA", "R-CP", "R-EV", "R-SL"],
+    "C10": _p(["R-VA", "R-KC", "R-OA", "R-CP", "R-EV", "R-SL", "R-OP"],
               "Decides: for every node class, every evaluate path's children are covered by one validate path; the same children are "
               "keyed; the same options form is passed; Cached.validate skips only on exists; inspection evaluates selectors only; "
               "unselected branches are not validated.",
               "agreement for a particular dictionary when it hinges on values",
-              filters={"R-CP": ["validate"]}),
-    "C11": _p(["R-XA", "R-EG", "R-OA", "R-EV", "R-TK"],
+              filters={"R-CP": ["validate"], "R-OP": [":iterates"]}),
+    "C11": _p(["R-XA", "R-EG", "R-OA", "R-EV", "R-TK", "R-OP"],
               "Decides: every child keyed or validated is explained, path by path for equal selections; every evaluate/validate "
               "reached from an explain method lies inside a try that catches EvaluationError and raises "
               "InsufficientInformationError from it or falls back statically.",
               "the iterative fill-until-valid behaviour on concrete dictionaries",
-              filters={"R-TK": ["explain"]}),
+              filters={"R-TK": ["explain"], "R-OP": [":iterates"]}),
     "C12": _p(["R-EH", "R-CH", "R-CD", "R-KN", "R-CP", "R-MC", "R-WR"],
               "Decides: the default evaluate handler wraps every exception into EvaluationError(source = this object) chained with "
               "`from`, re-raising its own; all raises inside handlers are chained; only documented fall-through points catch "
